@@ -107,8 +107,21 @@ func c16Server(kind string, steps []c16SStep) (obs []c16SObs, broken string) {
 		regPrompt = func() { srv.RegisterPrompt(&mcp.Prompt{Name: "p1"}, promptH) }
 		regResource = func() { srv.RegisterResource(&mcp.Resource{URI: "r://x", Name: "x"}, resH) }
 		regResources = func() { srv.RegisterResources(&mcp.Resource{URI: "r://x", Name: "x"}, resHs) }
+		// a session that has completed its handshake is asked again (two of three times): the answer to an initialize request
+		// does not depend on what the session negotiated before
+		sid := ""
 		doInit = func(v string, n int) c16SObs {
-			r := peer.PostJSON(ctx, ts.URL+"/mcp", nil, c16InitBody(v, n), n%2 == 1)
+			var hdr map[string]string
+			if kind == "streamable" && sid != "" && n%3 != 2 {
+				hdr = map[string]string{"Mcp-Session-Id": sid}
+			}
+			r := peer.PostJSON(ctx, ts.URL+"/mcp", hdr, c16InitBody(v, n), n%2 == 1)
+			if kind == "streamable" && hdr == nil && r.Status == 200 {
+				if id := r.Header.Get("Mcp-Session-Id"); id != "" {
+					sid = id
+					peer.PostJSON(ctx, ts.URL+"/mcp", map[string]string{"Mcp-Session-Id": sid}, peer.InitializedNotification(), false)
+				}
+			}
 			body := r.Body
 			if strings.Contains(r.Header.Get("Content-Type"), "event-stream") {
 				evs, _ := peer.ParseSSE(r.Body)
